@@ -14,9 +14,10 @@ PROP = "C09"
 LEVEL = "exploration"
 
 TIERS = {
-    "quick": {"streams": 64, "runs": 700, "codegen_every": 0, "budget_s": None},
+    "quick": {"streams": 64, "runs": 600, "codegen_every": 0, "budget_s": None,
+              "proc_groups": 3, "proc_runs": 700},
     "thorough": {"streams": 4000, "runs": 500, "codegen_every": 0,
-                 "budget_s": 15 * 60},
+                 "budget_s": 15 * 60, "proc_groups": 120, "proc_runs": 1500},
 }
 
 RULE = ("one evaluation = one simulated multi-rank run of "
@@ -48,8 +49,123 @@ def evaluate(case, res):
     return distrun.oracle_c09(case["recipe"], res)
 
 
+# {{{ process actors: one interpreter per rank (hash seeds differ between ranks)
+
+def make_tasks(seed, conf):
+    tasks = [(seed, k, conf["runs"], 0) for k in range(conf["streams"])]
+    # interleave the process-actor groups so that they start early
+    for g in range(conf.get("proc_groups", 0)):
+        tasks.insert(min(len(tasks), 4 * g), (seed, ("proc", g),
+                                              conf["proc_runs"], 0))
+    return tasks
+
+
+def _proc_run_one(ws, recipe, rng):
+    from simkit import procranks
+    state, results, stats = procranks.run(ws, recipe, rng)
+    return procranks.evaluate(recipe, state, results), state, stats
+
+
+def run_proc_group(task):
+    import random
+    from simkit import fleet, mrecipe
+    seed, (_kind, group), nprogs, _ = task
+    acc = e1.Accum()
+    t0 = time.monotonic()
+    rng = random.Random(f"{seed}:{PROP}:proc:{group}")
+    cfgs = fleet.draw_configs(rng, 4)
+    ws = [fleet.Worker(c["hashseed"], c["prelude"], f"p{group}.{i}")
+          for i, c in enumerate(cfgs)]
+    acc.extra["process_actor_interpreters"] += len(ws)
+    try:
+        for i in range(nprogs):
+            recipe = mrecipe.gen_recipe(
+                random.Random(f"{seed}:{PROP}:proc:{group}:{i}"))
+            if recipe["nranks"] < 2:
+                continue
+            v, state, stats = _proc_run_one(
+                ws, recipe, random.Random(f"{seed}:{PROP}:proc:{group}:{i}:s"))
+            acc.runs += 1
+            acc.extra["process_actor_runs"] += 1
+            acc.extra["process_actor_collectives"] += stats["collectives"]
+            acc.extra["process_actor_fold_orders_shuffled"] += \
+                stats["fold_orders_shuffled"]
+            import hashlib
+            pair = hashlib.sha256(("proc" + e1.recipe_digest(recipe)).encode()
+                                  ).digest()[:8]
+            acc.pairs.add(pair)
+            _live, livec = mrecipe.live_sets(recipe)
+            if livec:
+                acc.nontrivial_pairs.add(pair)
+            if v:
+                acc.violations.append({
+                    "stream": f"proc{group}", "run": i,
+                    "case": {"recipe": recipe, "cfg": {}, "iterations": 1,
+                             "mode": "process", "configs": cfgs},
+                    "decisions": [], "classes": e1.classes_of(v),
+                    "details": v[:8]})
+                if len(acc.violations) >= 2:
+                    break
+    finally:
+        for w in ws:
+            w.close()
+    acc.wall = time.monotonic() - t0
+    return acc
+
+
+def minimise_process(v, target, budget_s=120.0):
+    """shrink the recipe with the same four interpreter configurations"""
+    import random
+    from simkit import fleet, mrecipe
+    case = v["case"]
+    cfgs = case["configs"]
+    ws = [fleet.Worker(c["hashseed"], c["prelude"], f"min{i}")
+          for i, c in enumerate(cfgs)]
+    t0 = time.monotonic()
+    recipe = case["recipe"]
+
+    def fails(rc):
+        try:
+            vv, _s, _st = _proc_run_one(ws, rc, random.Random("min"))
+        except Exception:  # noqa: BLE001
+            return False
+        return target in e1.classes_of(vv)
+    try:
+        progress = fails(recipe)
+        while progress and time.monotonic() - t0 < budget_s:
+            progress = False
+            for rc in mrecipe.shrink_candidates(recipe):
+                if mrecipe.recipe_size(rc) < mrecipe.recipe_size(recipe) \
+                        and rc["nranks"] >= 2 and fails(rc):
+                    recipe = rc
+                    progress = True
+                    break
+    finally:
+        for w in ws:
+            w.close()
+    return dict(case, recipe=recipe), []
+
+
+def replay_process(doc):
+    import random
+    from simkit import fleet
+    cfgs = doc["configs"]
+    ws = [fleet.Worker(c["hashseed"], c["prelude"], f"rp{i}")
+          for i, c in enumerate(cfgs)]
+    try:
+        v, _s, _st = _proc_run_one(ws, doc["recipe"], random.Random("min"))
+    finally:
+        for w in ws:
+            w.close()
+    return v
+
+# }}}
+
+
 def run_stream(task):
     seed, stream, nruns, _codegen_every = task
+    if isinstance(stream, tuple):
+        return run_proc_group(task)
     known = driver.load_known_findings(PROP)
     acc = e1.Accum()
     t0 = time.monotonic()
@@ -80,6 +196,9 @@ def replay(path):
     import json
     with open(path) as f:
         doc = json.load(f)
+    if doc.get("mode") == "process":
+        v = replay_process(doc)
+        return doc, e1.classes_of(v), v
     case = e1.case_from_doc(doc)
     case["stop_after"] = "tags"
     res, _trace = e1.run_with(case, doc["schedule"])
